@@ -17,9 +17,13 @@
 //! Parts (`VERIF_PART`): `exh` all event sequences of length `depth` (optionally
 //! up to peer renaming, `sym=1`), `machine` the same enumeration on the bare
 //! state machine (outputs + `is_completed()` judged), `rnd` random
-//! configurations and sequences up to 40 events in both drive modes, plus an
-//! unjudged probe of what `on_established` dumps to a new peer while a family
-//! is held.  `VERIF_REPLAY=<file>` re-executes a recorded witness.
+//! configurations and sequences up to 40 events in both drive modes, plus the
+//! early-session scenarios.  Histories also contain `Op::Sess`: a new session
+//! goes through the real `PeerSession::on_established` at that point and its
+//! initial dump is judged (a held family must not be advertised to it); the
+//! early-session scenarios keep such a session up across the release and
+//! count how often it is sent each held prefix (exactly once).
+//! `VERIF_REPLAY=<file>` re-executes a recorded witness.
 //!
 //! Oracle: a pending-map model written from the property statement (see
 //! `Model`).  Where the statement is silent the model keeps extra statuses
@@ -69,6 +73,9 @@ enum Op {
     Ev(Ev),
     /// family index (0..NTF), prefix index, source index
     Ins(u8, u8, u8),
+    /// a new BGP session reaches Established now: the real
+    /// `PeerSession::on_established` runs (initial dump), then the session ends
+    Sess,
 }
 
 fn mask_str(m: u8) -> String {
@@ -83,6 +90,7 @@ fn op_str(op: &Op) -> String {
         Op::Ev(Ev::Wd(p)) => format!("PeerWithdrawn(p{})", p + 1),
         Op::Ev(Ev::Timer) => "TimerExpired".to_string(),
         Op::Ins(f, x, s) => format!("insert_route({}, prefix#{}, from src{})", FAM_NAME[*f as usize], x, s + 1),
+        Op::Sess => "new session established (real PeerSession::on_established), then route refresh of every family".to_string(),
     }
 }
 
@@ -105,6 +113,7 @@ fn replay_code(cfg: &Cfg, ops: &[Op]) -> String {
             Op::Ev(Ev::Wd(p)) => format!("W{}", p),
             Op::Ev(Ev::Timer) => "T".to_string(),
             Op::Ins(f, x, sr) => format!("I{}.{}.{}", f, x, sr),
+            Op::Sess => "S".to_string(),
         })
         .collect();
     s.push_str(&v.join(","));
@@ -135,6 +144,7 @@ fn parse_replay_code(code: &str) -> Option<(Cfg, Vec<Op>)> {
                         ("R", 2) if (n[0] as usize) < NP && (n[1] as usize) < NF => Op::Ev(Ev::Eor(n[0], n[1])),
                         ("W", 1) if (n[0] as usize) < NP => Op::Ev(Ev::Wd(n[0])),
                         ("T", 0) => Op::Ev(Ev::Timer),
+                        ("S", 0) => Op::Sess,
                         ("I", 3) if (n[0] as usize) < NTF && (n[1] as usize) < NPFX && (n[2] as usize) < NSRC => Op::Ins(n[0], n[1], n[2]),
                         _ => return None,
                     };
@@ -870,6 +880,126 @@ fn judged_insert(sys: &mut Sys, j: &mut Judge, st: &mut Stats, f: usize, x: usiz
     Ok(announced)
 }
 
+const NEW_SESSION_ADDR: IpAddr = IpAddr::V4(Ipv4Addr::new(10, 0, 0, 50));
+
+/// A session (all four table families negotiated) taken through the real
+/// `PeerSession::on_established`: registers its peer channel with the tables and
+/// buffers the initial dump.
+async fn establish_session(tables: &TableHandle) -> PeerSession {
+    let mut s = PeerSession::new_for_test(NEW_SESSION_ADDR, make_peer_context(), tables.clone());
+    let mp: Vec<packet::Capability> = (0..NTF).map(|f| packet::Capability::MultiProtocol(fam_of(f))).collect();
+    s.local_cap = mp.clone();
+    s.codec = bgp::PeerCodec::negotiate(&mp, &mp);
+    s.state.remote_cap.store(Some(Arc::new(mp)));
+    s.state.remote_asn.store(65200, Ordering::Relaxed);
+    s.state.remote_id.store(u32::from(Ipv4Addr::new(9, 9, 9, 9)), Ordering::Relaxed);
+    s.on_established(SocketAddr::new(IpAddr::V4(Ipv4Addr::new(127, 0, 0, 1)), 179), SocketAddr::new(NEW_SESSION_ADDR, 30000)).await;
+    s
+}
+
+/// Prefixes (family, prefix index) announced by the UPDATEs the session has buffered, with multiplicity.
+fn drain_session_reach(env: &Env, s: &mut PeerSession) -> Vec<(u8, u8)> {
+    let mut out = Vec::new();
+    for f in 0..NTF {
+        let fam = fam_of(f);
+        let msgs = s.pending.get_mut(&fam).map(|p| p.drain_messages(fam)).unwrap_or_default();
+        for m in msgs {
+            if let bgp::Message::Update(bgp::Update::Reach { entries, .. }) = m {
+                for e in entries {
+                    match env.net_index.get(&e.nlri) {
+                        Some(&(nf, x)) => out.push((nf, x)),
+                        None => out.push((f as u8, 99)),
+                    }
+                }
+            }
+        }
+    }
+    out
+}
+
+/// exactly the NlriChange arm of run_select's peer-event dispatch
+fn deliver_session_events(s: &mut PeerSession) -> usize {
+    let mut n = 0;
+    loop {
+        let ev = match s.peer_event_rx.as_mut() {
+            Some(rx) => rx.as_mut().try_recv().ok(),
+            None => None,
+        };
+        match ev {
+            Some(ToPeerEvent::NlriChange(u)) => {
+                s.handle_prefix_update(u);
+                n += 1;
+            }
+            Some(_) => {}
+            None => return n,
+        }
+    }
+}
+
+fn sent_str(v: &[(u8, u8)]) -> String {
+    let w: Vec<String> = v.iter().map(|(f, x)| format!("{}#{}", FAM_NAME[*f as usize], x)).collect();
+    format!("[{}]", w.join(" "))
+}
+
+/// `Op::Sess`: a peer establishes now.  While a family must be held, its routes
+/// must not be advertised to the new session by the initial dump either.
+async fn judged_new_session(sys: &mut Sys<'_>, j: &mut Judge, st: &mut Stats, step: usize) -> Result<(), Viol> {
+    let mut s = establish_session(&sys.tables).await;
+    let sent = drain_session_reach(sys.env, &mut s);
+    // the neighbour asks for a route refresh of every family (real do_route_refresh)
+    for f in 0..NTF {
+        s.do_route_refresh(fam_of(f)).await;
+    }
+    let refreshed = drain_session_reach(sys.env, &mut s);
+    // the session ends again (unregister_peer is what session teardown does first)
+    sys.tables.unregister_peer(NEW_SESSION_ADDR, &[], &[]);
+    drop(s);
+    j.judged += 1;
+    st.add("initial-dump:sessions");
+    for f in 0..NTF {
+        let n = sent.iter().filter(|e| e.0 as usize == f).count();
+        let deferred = j.model.is_deferred(f);
+        if deferred && j.model.must_hold(f) {
+            if n > 0 {
+                return Err(viol(
+                    "held",
+                    "initial-dump",
+                    "held-family-sent-to-new-session",
+                    format!("a peer that established while {} is still deferred was sent that family's held routes in its initial dump", FAM_NAME[f]),
+                    step,
+                    sent_str(&sent),
+                    format!("no route of {} (model: {})", FAM_NAME[f], j.model.describe()),
+                ));
+            }
+            if refreshed.iter().any(|e| e.0 as usize == f) {
+                return Err(viol(
+                    "held",
+                    "route-refresh",
+                    "held-family-sent-on-route-refresh",
+                    format!("a route refresh for {} while it is still deferred made the session advertise the held routes", FAM_NAME[f]),
+                    step,
+                    sent_str(&refreshed),
+                    format!("no route of {} (model: {})", FAM_NAME[f], j.model.describe()),
+                ));
+            }
+            if j.table_nonempty(f) {
+                st.add("initial-dump:held-family-withheld");
+            }
+        } else if !deferred || j.obs_released[f] {
+            // not a judged clause (export rules are C01/C09); counted so that the
+            // held check above is known not to be vacuous
+            for x in 0..NPFX {
+                if !j.tbl[f][x].is_empty() {
+                    st.add(if sent.iter().any(|e| e.0 as usize == f && e.1 as usize == x) { "initial-dump:released-prefix-sent" } else { "unjudged:initial-dump-released-prefix-not-sent" });
+                }
+            }
+        } else {
+            st.add("unjudged:initial-dump-in-ambiguous-state");
+        }
+    }
+    Ok(())
+}
+
 /// Execute one op list against a fresh coupled system and judge every step.
 async fn run_ops(env: &Env, cfg: &Cfg, ops: &[Op], global: GlobalHandle, st: &mut Stats, want_trace: bool) -> RunOut {
     let mut trace: Vec<String> = Vec::new();
@@ -910,6 +1040,16 @@ async fn run_ops_inner(sys: &mut Sys<'_>, j: &mut Judge, ops: &[Op], st: &mut St
     }
     for (step, op) in ops.iter().enumerate() {
         match op {
+            Op::Sess => {
+                if want_trace {
+                    trace.push(op_str(op));
+                }
+                judged_new_session(sys, j, st, step).await?;
+                let ch = sys.drain();
+                if !ch.is_empty() {
+                    return Err(viol("exactly-once", "initial-dump", "announce-on-session-establishment", "NlriChanges reached the observer channel because another session established".into(), step, changes_str(&ch), "[]".into()));
+                }
+            }
             Op::Ins(f, x, s) => {
                 if want_trace {
                     trace.push(op_str(op));
@@ -1201,6 +1341,7 @@ impl Ctx {
                             Op::Ev(Ev::Wd(p)) => key.extend_from_slice(&[3, p]),
                             Op::Ev(Ev::Timer) => key.push(4),
                             Op::Ins(f, x, sr) => key.extend_from_slice(&[5, f, x, sr]),
+                            Op::Sess => key.push(6),
                         }
                     }
                     self.rep.nontrivial(fnv64(&key));
@@ -1331,6 +1472,12 @@ fn schedule(events: &[Ev], variant: u64, shards: u8, deferred: u8) -> Vec<Op> {
     let mf = (v / 16) % NTF;
     let mx = if (v / 64) % 2 == 0 { (v >> mf) & 1 } else { 1 - ((v >> mf) & 1) };
     ops.push(Op::Ins(mf as u8, mx as u8, ((v + mf + 1 + (v / 128) % 3) % NSRC) as u8));
+    // in one history out of four a new session establishes at one point
+    // (after the prologue or after one of the events)
+    let sess_at = if (v >> 20) & 3 == 0 { Some((v >> 22) % (events.len() + 1)) } else { None };
+    if sess_at == Some(0) {
+        ops.push(Op::Sess);
+    }
     for (i, ev) in events.iter().enumerate() {
         ops.push(Op::Ev(*ev));
         let f1 = (v + i) % NTF;
@@ -1338,6 +1485,9 @@ fn schedule(events: &[Ev], variant: u64, shards: u8, deferred: u8) -> Vec<Op> {
         if (v >> (8 + i)) & 1 == 1 {
             let f2 = (f1 + 1 + (v / 4) % 3) % NTF;
             ops.push(Op::Ins(f2 as u8, ((v / 4 + i + 1) % NPFX) as u8, ((v + i + 1) % NSRC) as u8));
+        }
+        if sess_at == Some(i + 1) {
+            ops.push(Op::Sess);
         }
     }
     // epilogue: every (deferred family, shard), and one never-deferred family
@@ -1520,6 +1670,9 @@ fn random_ops(rng: &mut Rng, cfg: &Cfg, alpha: &[Ev], nev: usize) -> Vec<Op> {
         for _ in 0..rng.below(3) {
             ins(rng, &mut ops);
         }
+        if rng.chance(1, 12) {
+            ops.push(Op::Sess);
+        }
     }
     // epilogue: every (family, shard)
     for f in 0..NTF {
@@ -1548,32 +1701,94 @@ fn run_random(ctx: &mut Ctx, rng: &mut Rng, count: u64) {
     ctx.rep.count_n("random:sequences", done);
 }
 
-// ------------------------------------------------------------------ initial-dump probe (observation only)
+// ------------------------------------------------------------------ early-session scenario (consequence of the initial dump)
 
-/// Not one of the judged clauses: what the real `PeerSession::on_established`
-/// sends to a peer that establishes while a family is still held.  The held
-/// clause is stated on the registered peer channel; the initial dump bypasses
-/// that channel (it reads the Loc-RIB under the shard lock).  Counted, not
-/// judged; see the report.
-async fn initial_dump_probe(env: &Env, global: GlobalHandle) -> (usize, usize) {
-    let cfg = Cfg { helper: [1, 1, 0], timer: true, shards: 1, mode: Mode::Glue };
+/// A session establishes (real `on_established`) while ipv4 is held with two
+/// prefixes in the table, stays up, and the family is then released
+/// (`variant` 0: both helpers drop, 1: they re-establish and send EOR, 2: timer).
+/// Returns what the session was sent by the initial dump and what it was sent
+/// when the release reached it through its peer channel
+/// (`handle_prefix_update`, as run_select does).
+async fn early_session_scenario(env: &Env, global: GlobalHandle, variant: u8, shards: u8) -> (Vec<(u8, u8)>, Vec<(u8, u8)>, Vec<String>) {
+    let cfg = Cfg { helper: [1, 1, 0], timer: true, shards, mode: Mode::Glue };
     let mut sys = Sys::start(env, &cfg, global, None).await;
-    // two routes received from p1 while ipv4 is held (p1, p2 pending)
+    let mut hist = vec!["insert_route(ipv4, prefix#0, from src1)".to_string(), "insert_route(ipv4, prefix#1, from src2)".to_string()];
     sys.insert(0, 0, 0, 1);
-    sys.insert(0, 1, 0, 2);
-    let held_on_channel = sys.drain().len();
-    let addr = IpAddr::V4(Ipv4Addr::new(10, 0, 0, 50));
-    let mut s = PeerSession::new_for_test(addr, make_peer_context(), sys.tables.clone());
-    let mp = [packet::Capability::MultiProtocol(Family::IPV4)];
-    s.codec = bgp::PeerCodec::negotiate(&mp, &mp);
-    s.state.remote_cap.store(Some(Arc::new(vec![])));
-    let sa = SocketAddr::new(addr, 179);
-    s.on_established(SocketAddr::new(IpAddr::V4(Ipv4Addr::new(127, 0, 0, 1)), 179), sa).await;
-    let msgs = s.pending.get_mut(&Family::IPV4).map(|p| p.drain_messages(Family::IPV4)).unwrap_or_default();
-    let updates_with_routes = msgs.iter().filter(|m| matches!(m, bgp::Message::Update(u) if !matches!(u, bgp::Update::EndOfRib(_)))).count();
-    sys.tables.unregister_peer(addr, &[], &[]);
+    sys.insert(0, 1, 1, 2);
+    let _ = sys.drain();
+    let mut s = establish_session(&sys.tables).await;
+    hist.push("new session established (real PeerSession::on_established), stays up".into());
+    let dump = drain_session_reach(env, &mut s);
+    let evs: Vec<Ev> = match variant {
+        0 => vec![Ev::Wd(0), Ev::Wd(1)],
+        1 => vec![Ev::Est(0, 1), Ev::Est(1, 1), Ev::Eor(0, 0), Ev::Eor(1, 0)],
+        _ => vec![Ev::Est(0, 1), Ev::Timer],
+    };
+    for ev in &evs {
+        hist.push(op_str(&Op::Ev(*ev)));
+        sys.feed(ev, None).await;
+    }
+    deliver_session_events(&mut s);
+    let at_release = drain_session_reach(env, &mut s);
+    sys.tables.unregister_peer(NEW_SESSION_ADDR, &[], &[]);
+    drop(s);
     sys.finish().await;
-    (held_on_channel, updates_with_routes)
+    (dump, at_release, hist)
+}
+
+fn run_early_session_scenarios(ctx: &mut Ctx) {
+    for variant in 0..3u8 {
+        for shards in 1..=2u8 {
+            let g = ctx.global.clone();
+            let env = &ctx.env;
+            let rt = &ctx.rt;
+            let r = guard(|| rt.block_on(early_session_scenario(env, g, variant, shards)));
+            ctx.rep.eval();
+            let (dump, at_release, hist) = match r {
+                Ok(x) => x,
+                Err(p) => {
+                    ctx.global = new_global();
+                    let sig = format!("C11/panic/{}:{}", p.location, panic_class(&p.message));
+                    ctx.rep.violation(&sig, &format!("early-session scenario panicked: {}", p.message), Json::obj(vec![("scenario", Json::Int(variant as i128))]));
+                    continue;
+                }
+            };
+            ctx.rep.count("early-session:scenarios");
+            let witness = Json::obj(vec![
+                ("origin", Json::s("early-session scenario")),
+                ("config", Json::s("helpers p1:{ipv4} p2:{ipv4}, timer on")),
+                ("table_shards", Json::Int(shards as i128)),
+                ("history", Json::strs(hist.clone())),
+                ("sent_by_initial_dump", Json::s(sent_str(&dump))),
+                ("sent_at_release", Json::s(sent_str(&at_release))),
+            ]);
+            if dump.iter().any(|e| e.0 == 0) {
+                ctx.rep.violation(
+                    "C11/held/initial-dump/held-family-sent-to-new-session",
+                    "a peer that established while ipv4 is still deferred was sent that family's held routes in its initial dump",
+                    witness.clone(),
+                );
+            } else {
+                ctx.rep.count("early-session:dump-withheld");
+            }
+            for x in 0..2u8 {
+                let n = dump.iter().chain(at_release.iter()).filter(|e| **e == (0, x)).count();
+                match n {
+                    1 => ctx.rep.count("early-session:prefix-announced-once"),
+                    0 => ctx.rep.violation(
+                        "C11/exactly-once/initial-dump/held-prefix-never-sent-to-early-session",
+                        "a session that established during the deferral was never sent a prefix received meanwhile, not even at release",
+                        witness.clone(),
+                    ),
+                    _ => ctx.rep.violation(
+                        "C11/exactly-once/initial-dump/held-prefix-sent-again-at-release",
+                        "a session that established during the deferral was sent a held prefix in its initial dump and again when the family was released",
+                        witness.clone(),
+                    ),
+                }
+            }
+        }
+    }
 }
 
 // ------------------------------------------------------------------ machine-only exhaustive (full alphabet, deeper)
@@ -1868,18 +2083,7 @@ fn run() {
         }
     }
     if part == "rnd" || part == "all" {
-        let g = ctx.global.clone();
-        let env = &ctx.env;
-        let rt = &ctx.rt;
-        match guard(|| rt.block_on(initial_dump_probe(env, g))) {
-            Ok((on_channel, to_new_peer)) => {
-                ctx.rep.count("initial-dump-probe:runs");
-                if on_channel == 0 && to_new_peer > 0 {
-                    ctx.rep.count("unjudged:initial-dump-sends-held-family-to-newly-established-peer");
-                }
-            }
-            Err(p) => ctx.rep.count(&format!("unjudged:initial-dump-probe-panicked:{}", p.location)),
-        }
+        run_early_session_scenarios(&mut ctx);
     }
     if part == "rnd" {
         run_random(&mut ctx, &mut rng, params.get_u64("count", 2000));
